@@ -230,7 +230,9 @@ def evaluate(ctx, cfg, src, family, budget, meta=None, raw=True):
             if out2 == "watchdog":
                 stuck += 1
             else:
+                # it terminates: slow (or a loaded machine), not a hang
                 out = out2
+                break
         if stuck == 3:
             out, key, detail = "viol", "hang", \
                 f"no result within {budget * 10:.0f} CPU-seconds in 3 solo re-runs"
